@@ -8,6 +8,7 @@ import (
 
 	"com.tuntun.rangers/node/src/common"
 	"com.tuntun.rangers/node/src/middleware/log"
+	"com.tuntun.rangers/node/src/utility"
 )
 
 // In-package driver for the deterministic simulator (Go -overlay from /verif/overlay).
@@ -20,9 +21,31 @@ func SimInit(consensusHandler MsgHandler) {
 	p2pLogger = log.GetLoggerByIndex(log.P2PLogConfig, idx)
 	bizLogger = log.GetLoggerByIndex(log.P2PBizLogConfig, idx)
 	txRcvLogger = log.GetLoggerByIndex(log.TxRcvLogConfig, idx)
+	// the real Init builds the frame-level receive callback (doRcv); with the offline switch (hook H9)
+	// it neither dials the gateway nor starts the socket goroutines
+	SimOffline = true
 	simConn = &WorkerConn{}
-	simConn.logger = p2pLogger
-	simConn.consensusHandler = consensusHandler
+	simConn.Init("ws://offline", make([]byte, netIdSize), consensusHandler, p2pLogger)
+}
+
+// SimFrame feeds one websocket frame (protocol header + body) as received from the gateway: header
+// parsing and the connection's receive callback run as in baseConn.loop, in the calling goroutine.
+func SimFrame(frame []byte) {
+	header, msg := simConn.unloadMsg(frame)
+	simConn.doRcv(header, msg)
+}
+
+// SimFrameFor builds a frame with the given 4-byte method around a body (what the gateway relays).
+func SimFrameFor(method []byte, sourceId uint64, body []byte) []byte {
+	h := simConn.headerToBytes(wsHeader{method: method})
+	copy(h[4:12], utility.UInt64ToByte(sourceId))
+	return append(h, body...)
+}
+
+// SimMethods returns the method codes a worker connection accepts (send, broadcast, group, to-manager)
+// plus one it refuses.
+func SimMethods() [][]byte {
+	return [][]byte{methodCodeSend, methodCodeBroadcast, methodCodeSendToGroup, methodSendToManager, methodSetNetId}
 }
 
 // SimDeliver feeds raw bytes into the node's receive path exactly as a websocket
